@@ -190,7 +190,37 @@ pub fn run(ctx: &Ctx, profile: Profile) -> i32 {
                 acc.states.merge(ex.states);
             }
             {
+                // configuration-shape probes
                 let o = &out.scenario.setup.oti;
+                let ks = block_sizes(o);
+                if o.f % o.t as u64 != 0 {
+                    acc.probes.inc("shape_f_not_multiple_of_t");
+                }
+                if o.z > 1 && ks.first() != ks.last() {
+                    acc.probes.inc("shape_z_gt_1_kl_ne_ks");
+                }
+                if o.n > 1 {
+                    acc.probes.inc("shape_n_gt_1");
+                    if (o.t as u32 / o.al as u32) % o.n as u32 != 0 {
+                        acc.probes.inc("shape_n_gt_1_tl_ne_ts");
+                    }
+                }
+                if o.al > 1 {
+                    acc.probes.inc("shape_al_gt_1");
+                }
+                if ks.iter().any(|k| crate::rank::params(*k).kp != *k) {
+                    acc.probes.inc("shape_padding_symbols_present");
+                }
+                if o.t >= 64 {
+                    acc.probes.inc("shape_t_ge_64");
+                }
+                if o.f == 1 {
+                    acc.probes.inc("shape_single_byte_object");
+                }
+                match out.scenario.setup.kernel {
+                    Kernel::Auto => {}
+                    _ => acc.probes.inc("shape_forced_kernel"),
+                }
                 let mut d = crate::prng::Digest::new();
                 d.u64(o.t as u64);
                 d.u64(o.z as u64);
@@ -238,13 +268,16 @@ pub fn run(ctx: &Ctx, profile: Profile) -> i32 {
         faults.add("window_overlap", acc.probes.get("window_overlap"));
     }
     let probe_keys: Vec<&'static str> = match profile {
-        Profile::C01 => vec!["probe_block_decoded_from_repair_only", "probe_decoded_at_exactly_k", "probe_completed_by_solving", "probe_rank_deficient_at_ge_k", "probe_esi_above_2_23", "probe_rollback_across_completion"],
-        Profile::C08 => vec!["probe_dup_source_at_k_minus_1", "probe_dup_as_kth_packet", "probe_batch_crosses_k", "probe_rollback_across_completion", "probe_clone_followed", "set_determinism_checks", "redeliver_after_done"],
+        Profile::C01 => vec!["probe_gf2_only_attempt_eligible", "probe_block_decoded_from_repair_only", "probe_decoded_at_exactly_k", "probe_completed_by_solving", "probe_rank_deficient_at_ge_k", "probe_esi_above_2_23", "probe_rollback_across_completion"],
+        Profile::C08 => vec!["probe_gf2_only_attempt_eligible", "probe_dup_source_at_k_minus_1", "probe_dup_as_kth_packet", "probe_batch_crosses_k", "probe_rollback_across_completion", "probe_clone_followed", "set_determinism_checks", "redeliver_after_done"],
         Profile::C18 => vec!["probe_esi_seen_through_two_routes", "probe_window_ends_at_last_esi", "windows", "bursts", "window_overlap", "replica_mix"],
         Profile::C07 => vec![],
     };
     let mut probes = Counters::default();
     for k in &probe_keys {
+        probes.add(k, acc.probes.get(k));
+    }
+    for k in ["shape_f_not_multiple_of_t", "shape_z_gt_1_kl_ne_ks", "shape_n_gt_1", "shape_n_gt_1_tl_ne_ts", "shape_al_gt_1", "shape_padding_symbols_present", "shape_t_ge_64", "shape_single_byte_object", "shape_forced_kernel"] {
         probes.add(k, acc.probes.get(k));
     }
     if violations.is_empty() {
